@@ -42,6 +42,7 @@ func (f *treeFetcher) FetchSourcePackage(ctx context.Context, sourceType string,
 		case "l":
 			os.MkdirAll(filepath.Dir(p), 0755)
 			t := strings.Replace(n.Data, "@WORK@", targetDir, 1)
+			t = strings.Replace(t, "@WORKBASE@", filepath.Base(targetDir), 1)
 			t = strings.Replace(t, "@ARENA@", f.arena, 1)
 			os.Symlink(t, p)
 		case "s":
@@ -92,7 +93,9 @@ func genFetched(r *Rng) []PNode {
 			dirs = append(dirs, p)
 		case x < 96:
 			targets := []string{"a", "b", "main.tf", ups + "a", ups + "main.tf", "nonexist", ups + "d", "d", ".", ups + "../sibling-pkg/file", ups + "../terraform-sources.json",
-				ups + "../../outside.txt", "@WORK@/a", "@WORK@/main.tf", "@ARENA@/outside.txt", ups + "logs/x.log", "logs/x.log", ups + "d/keep", "e/../a", ups + ".."}
+				ups + "../../outside.txt", "@WORK@/a", "@WORK@/main.tf", "@ARENA@/outside.txt", ups + "logs/x.log", "logs/x.log", ups + "d/keep", "e/../a", ups + "..",
+				// out of the package and back in through the temporary directory's own name (seed C10-d)
+				ups + "../@WORKBASE@/a", ups + "../@WORKBASE@/main.tf"}
 			nodes = append(nodes, PNode{Path: p, Kind: "l", Data: r.Pick(targets)})
 		default:
 			nodes = append(nodes, PNode{Path: p, Kind: "s"})
@@ -108,7 +111,7 @@ type simpleFinder struct{}
 
 func init() {
 	lanes["sanitise"] = func(cfg *Config, rep *Report) {
-		rep.Rule = "one fetched package tree per build: 1..9 nodes (files, directories, fifos, links over 20 target shapes: in-package relative and absolute-into-the-work-directory, dangling, to a directory, to a sibling package, to the manifest name, out of the bundle, through ignored directories, '..' detours) plus one of 12 rule files; non-trivial = has a link, a fifo or a rule file; distinct by tree"
+		rep.Rule = "one fetched package tree per build: 1..9 nodes (files, directories, fifos, links over 22 target shapes: in-package relative and absolute-into-the-work-directory, dangling, to a directory, to a sibling package, to the manifest name, out of the bundle, through ignored directories, '..' detours) plus one of 12 rule files; non-trivial = has a link, a fifo or a rule file; distinct by tree"
 		r := NewRng(cfg.Seed)
 		work, err := filepath.EvalSymlinks(cfg.Work)
 		if err != nil {
@@ -129,6 +132,10 @@ func init() {
 			{{Path: "a.log", Kind: "f", Perm: 0644, Data: "x"}, {Path: "b", Kind: "l", Data: "../../outside.txt"}, {Path: ".terraformignore", Kind: "f", Perm: 0644, Data: "*.log\n"}},
 			{{Path: "a.log", Kind: "f", Perm: 0644, Data: "x"}, {Path: "pipe", Kind: "s"}, {Path: ".terraformignore", Kind: "f", Perm: 0644, Data: "*.log\n"}},
 			{{Path: "a", Kind: "f", Perm: 0644, Data: "x"}, {Path: "d", Kind: "l", Data: "@WORK@/a"}},
+			{{Path: "a", Kind: "f", Perm: 0644, Data: "x"}, {Path: "d", Kind: "d", Perm: 0755}, {Path: "d/l", Kind: "l", Data: "../../@WORKBASE@/a"}},
+			{{Path: "main.tf", Kind: "f", Perm: 0644, Data: "m"}, {Path: "l", Kind: "l", Data: "../@WORKBASE@/main.tf"}},
+			{{Path: "a", Kind: "f", Perm: 0644, Data: "x"}, {Path: "z", Kind: "l", Data: "."}, {Path: "l", Kind: "l", Data: "z/../@WORKBASE@/a"}},
+			{{Path: "a", Kind: "f", Perm: 0644, Data: "x"}, {Path: "d", Kind: "d", Perm: 0755}, {Path: "d/l", Kind: "l", Data: "../a"}},
 			{{Path: "d", Kind: "d", Perm: 0755}, {Path: "d/keep", Kind: "f", Perm: 0644, Data: "k"}, {Path: "d/x", Kind: "f", Perm: 0644, Data: "x"}, {Path: ".terraformignore", Kind: "f", Perm: 0644, Data: "d/\n!d/keep\n"}},
 		}
 		for i := range trees {
